@@ -35,13 +35,13 @@ def c05_program(pid, shape, is_async, ret, explicit_static=False):
     aw = ' rt::YieldOnce(false).await;' if is_async else ''
     refty = "&'static " + ty if explicit_static else '&' + ty
     if ret == 'owned':
-        rty, rexpr = 'u64', f'rt::mix(rt::mix(rt::mix(5, {acc} as u64), a as u64), b as u64)'
+        rty, rexpr = 'u64', f'rt::mix(rt::mix(rt::mix(5, {acc} as u64), q1 as u64), q0 as u64)'
     else:  # borrowed from deps
         rty, rexpr = ('&u32' if not explicit_static else "&'static u32"), f'&{acc}'
     src = PRELUDE + PROBE + decl + '\n'
     src += (f'#[::entrait::entrait(pub Leaf)]\n'
-            f'pub {asy}fn leaf(deps: {refty}, a: u32, b: u32) -> {rty} {{\n'
-            f'    rt::trace(1, 0, rt::addr(deps), 2, [a as u64, b as u64, 0, 0, 0, 0]);{aw}\n'
+            f'pub {asy}fn leaf(deps: {refty}, q1: u32, q0: u32) -> {rty} {{\n'
+            f'    rt::trace(1, 0, rt::addr(deps), 2, [q1 as u64, q0 as u64, 0, 0, 0, 0]);{aw}\n'
             f'    {rexpr}\n}}\n')
     # a downstream application adopting the trait by hand
     hand_body = ('rt::trace(7, 0, rt::addr(self), 2, [a as u64, b as u64, 0, 0, 0, 0]);'
@@ -144,7 +144,7 @@ def c05_corpus(tier, seed):
 # ---------------------------------------------------------------------------
 
 def c06_program(pid, sel, n_methods, is_async, async_trait, generic_trait=False, generic_method=False,
-                supertrait='', borrowed=False, where_clause=False, maybe_send=False):
+                supertrait='', borrowed=False, where_clause=False, maybe_send=False, scope_imports=False):
     """sel in '', 'Self', 'ref', 'Borrow'"""
     dyn = sel in ('ref', 'Borrow')
     opts = []
@@ -162,10 +162,13 @@ def c06_program(pid, sel, n_methods, is_async, async_trait, generic_trait=False,
     for i in range(n_methods):
         methods.append((f'm{i + 1}', i + 1))
     src = PRELUDE + PROBE
+    if scope_imports:
+        # the expansion must mean the same whatever the invoking scope imports
+        src += 'use core::borrow::Borrow;\nuse core::convert::AsRef;\n'
     src += f'#[::entrait::entrait({", ".join(opts)})]\n{at}pub trait Tr{tg}{sup}{wc} {{\n'
     xparam = ', x: X' if generic_trait else ''
     for name, fid in methods:
-        src += f'    {asy}fn {name}(&self, a: u32, b: u32{xparam}) -> u64;\n'
+        src += f'    {asy}fn {name}(&self, q1: u32, q0: u32{xparam}) -> u64;\n'
     if generic_method:
         src += f'    {asy}fn gm<Y: Into<u64> + Send>(&self, a: u32, y: Y) -> u64;\n'
     if borrowed:
@@ -177,9 +180,9 @@ def c06_program(pid, sel, n_methods, is_async, async_trait, generic_trait=False,
     def provider(tn, target):
         s = f'pub struct {tn} {{ pub id: u32, pub cell: u32 }}\n{at}impl{tg} Tr{"<X>" if generic_trait else ""} for {tn} {{\n'
         for name, fid in methods:
-            s += (f'    {asy}fn {name}(&self, a: u32, b: u32{xparam}) -> u64 {{\n'
-                  f'        rt::trace({fid}, {target}, rt::addr(self), 3, [a as u64, b as u64, {xenc}, 0, 0, 0]);{aw}\n'
-                  f'        rt::mix(rt::mix(rt::mix({fid * 10 + target}, self.id as u64), a as u64), b as u64)\n    }}\n')
+            s += (f'    {asy}fn {name}(&self, q1: u32, q0: u32{xparam}) -> u64 {{\n'
+                  f'        rt::trace({fid}, {target}, rt::addr(self), 3, [q1 as u64, q0 as u64, {xenc}, 0, 0, 0]);{aw}\n'
+                  f'        rt::mix(rt::mix(rt::mix({fid * 10 + target}, self.id as u64), q1 as u64), q0 as u64)\n    }}\n')
         if generic_method:
             s += (f'    {asy}fn gm<Y: Into<u64> + Send>(&self, a: u32, y: Y) -> u64 {{\n'
                   f'        let y: u64 = y.into();\n'
@@ -274,7 +277,7 @@ def c06_program(pid, sel, n_methods, is_async, async_trait, generic_trait=False,
     src += '    kani::cover!(true);\n}\n'
     hs.append(h)
     desc = (f'trait sel={sel or "default"} methods={n_methods} async={is_async} async_trait={async_trait} '
-            f'generic_trait={generic_trait} generic_method={generic_method} super={supertrait!r} borrowed={borrowed} ?Send={maybe_send}')
+            f'generic_trait={generic_trait} generic_method={generic_method} super={supertrait!r} borrowed={borrowed} ?Send={maybe_send} imports={scope_imports}')
     return Program(pid, desc, src, hs, ['C06'])
 
 
@@ -290,7 +293,7 @@ def c06_corpus(tier, seed):
     for sel in ('', 'ref', 'Borrow'):
         dyn = sel in ('ref', 'Borrow')
         progs.append(c06_program(pid(), sel, 2, False, False, borrowed=True))
-        progs.append(c06_program(pid(), sel, 3, False, False, supertrait="'static"))
+        progs.append(c06_program(pid(), sel, 3, False, False, supertrait="'static", scope_imports=True))
         if dyn:
             progs.append(c06_program(pid(), sel, 2, True, True, supertrait="Sync + 'static"))
         else:
@@ -317,7 +320,7 @@ def c06_corpus(tier, seed):
 # C07
 # ---------------------------------------------------------------------------
 
-def c07_program(pid, dynamic, n_methods, is_async, async_trait, impl_deps, same_sig=True):
+def c07_program(pid, dynamic, n_methods, is_async, async_trait, impl_deps, same_sig=True, path_targets=False):
     """impl_deps: list (per method) of deps declaration kind for the implementation fn:
        'gen' (<D>(deps: &D)), 'id' (deps: &impl HasId), 'idtag' (deps: &(impl HasId + HasTag)), 'ent' (deps: &impl Baz, an entraited fn)"""
     at = '#[::async_trait::async_trait]\n' if async_trait else ''
@@ -328,11 +331,17 @@ def c07_program(pid, dynamic, n_methods, is_async, async_trait, impl_deps, same_
     sel = 'delegate_by = ref' if dynamic else 'delegate_by = DelegateRepo'
     src += f'#[::entrait::entrait(pub RepoImpl, {sel})]\n{at}pub trait Repo {{\n'
     for i in range(n_methods):
-        src += f'    {asy}fn m{i + 1}(&self, a: u32, b: u32) -> u64;\n'
+        src += f'    {asy}fn m{i + 1}(&self, q1: u32, q0: u32) -> u64;\n'
     src += '}\n'
 
+    if path_targets:
+        # two target types with the same last path segment; the other one is imported by its bare name
+        src += 'pub mod ta { pub struct Backend; }\npub mod tb { pub struct Backend; }\nuse tb::Backend;\n'
+    TA, TB = ('ta::Backend', 'tb::Backend') if path_targets else ('TA', 'TB')
+
     def block(tn, target):
-        s = f'pub struct {tn};\n#[::entrait::entrait{"(ref)" if dynamic else ""}]\n{at}impl RepoImpl for {tn} {{\n'
+        decl = '' if path_targets else f'pub struct {tn};\n'
+        s = f'{decl}#[::entrait::entrait{"(ref)" if dynamic else ""}]\n{at}impl RepoImpl for {tn} {{\n'
         for i in range(n_methods):
             dk = impl_deps[i % len(impl_deps)]
             if dk == 'gen':
@@ -342,24 +351,24 @@ def c07_program(pid, dynamic, n_methods, is_async, async_trait, impl_deps, same_
             elif dk == 'idtag':
                 gen, dp, use = '', 'deps: &(impl HasId + HasTag)', ' let r = rt::mix(r, deps.id() as u64); let r = rt::mix(r, deps.tag() as u64);'
             else:
-                gen, dp, use = '', 'deps: &impl Baz', ' let r = rt::mix(r, deps.baz(a));'
-            s += (f'    pub {asy}fn m{i + 1}{gen}({dp}, a: u32, b: u32) -> u64 {{\n'
-                  f'        rt::trace({i + 1}, {target}, rt::addr(deps), 2, [a as u64, b as u64, 0, 0, 0, 0]);{aw}\n'
+                gen, dp, use = '', 'deps: &impl Baz', ' let r = rt::mix(r, deps.baz(q1));'
+            s += (f'    pub {asy}fn m{i + 1}{gen}({dp}, q1: u32, q0: u32) -> u64 {{\n'
+                  f'        rt::trace({i + 1}, {target}, rt::addr(deps), 2, [q1 as u64, q0 as u64, 0, 0, 0, 0]);{aw}\n'
                   f'        let r = {(i + 1) * 10 + target}u64;{use}\n'
-                  f'        rt::mix(rt::mix(r, a as u64), b as u64)\n    }}\n')
+                  f'        rt::mix(rt::mix(r, q1 as u64), q0 as u64)\n    }}\n')
         s += '}\n'
         return s
-    src += block('TA', 1) + block('TB', 2)
+    src += block(TA, 1) + block(TB, 2)
     if dynamic:
         dsync = ' + Sync' if is_async else ''
-        for app, tgt in (('AppA', 'TA'), ('AppB', 'TB')):
+        for app, tgt in (('AppA', TA), ('AppB', TB)):
             src += (f'pub struct {app} {{ pub id: u32, pub tag: u32, pub repo: Box<dyn RepoImpl<{app}> + Send + Sync> }}\n'
                     f'impl AsRef<dyn RepoImpl<{app}>{dsync}> for {app} {{ fn as_ref(&self) -> &(dyn RepoImpl<{app}>{dsync} + \'static) {{ self.repo.as_ref() }} }}\n'
                     f'impl HasId for Impl<{app}> {{ fn id(&self) -> u32 {{ self.id }} }}\n'
                     f'impl HasTag for Impl<{app}> {{ fn tag(&self) -> u32 {{ self.tag }} }}\n')
-        mk = {'AppA': 'AppA { id, tag, repo: Box::new(TA) }', 'AppB': 'AppB { id, tag, repo: Box::new(TB) }'}
+        mk = {'AppA': f'AppA {{ id, tag, repo: Box::new({TA}) }}', 'AppB': f'AppB {{ id, tag, repo: Box::new({TB}) }}'}
     else:
-        for app, tgt in (('AppA', 'TA'), ('AppB', 'TB')):
+        for app, tgt in (('AppA', TA), ('AppB', TB)):
             src += (f'pub struct {app} {{ pub id: u32, pub tag: u32 }}\n'
                     f'impl DelegateRepo<Self> for {app} {{ type Target = {tgt}; }}\n'
                     f'impl HasId for Impl<{app}> {{ fn id(&self) -> u32 {{ self.id }} }}\n'
@@ -369,7 +378,7 @@ def c07_program(pid, dynamic, n_methods, is_async, async_trait, impl_deps, same_
 
     def call(e):
         return f'rt::block_on({e})' if is_async else e
-    for app, tn, target in (('AppA', 'TA', 1), ('AppB', 'TB', 2)):
+    for app, tn, target in (('AppA', TA, 1), ('AppB', TB, 2)):
         for i in range(n_methods):
             h = f'{pid}_h_{app}_m{i + 1}'
             src += harness_head(h)
@@ -384,7 +393,7 @@ def c07_program(pid, dynamic, n_methods, is_async, async_trait, impl_deps, same_
                     f'    rt::reset();\n    let dir = {call(f"{tn}::m{i + 1}(&app, a, b)")};\n'
                     f'    assert!(via == dir, "result unchanged");\n    kani::cover!(true);\n}}\n')
             hs.append(h)
-    desc = f'inversion {"dynamic" if dynamic else "static"} methods={n_methods} async={is_async} async_trait={async_trait} impl_deps={impl_deps}'
+    desc = f'inversion {"dynamic" if dynamic else "static"} methods={n_methods} async={is_async} async_trait={async_trait} impl_deps={impl_deps} path_targets={path_targets}'
     return Program(pid, desc, src, hs, ['C07'])
 
 
@@ -401,6 +410,7 @@ def c07_corpus(tier, seed):
         progs.append(c07_program(pid(), dynamic, 2, False, False, ['gen', 'id']))
         progs.append(c07_program(pid(), dynamic, 3, False, False, ['idtag', 'ent', 'gen']))
         progs.append(c07_program(pid(), dynamic, 1, False, False, ['ent']))
+        progs.append(c07_program(pid(), dynamic, 2, False, False, ['gen', 'id'], path_targets=True))
         if dynamic:
             progs.append(c07_program(pid(), dynamic, 2, True, True, ['gen', 'id']))
         else:
